@@ -14,13 +14,26 @@ undo the patch, record the outcome in meta.json ("current") and print a table.
 /repo must be clean.  Evidence files overwritten by these runs are restored
 from git afterwards.
 """
-import json, os, subprocess, sys, time, glob
+import json, os, signal, subprocess, sys, time, glob
+
+signal.signal(signal.SIGTERM, lambda *_: sys.exit(143))  # so that finally blocks undo the patch
 
 ENV = dict(os.environ, GOFLAGS="-mod=mod", GOPROXY="off", GOSUMDB="off", GOTOOLCHAIN="local")
 
 def run(cmd, cwd=None, timeout=3600):
-    p = subprocess.run(cmd, shell=True, cwd=cwd, env=ENV, capture_output=True, text=True, timeout=timeout)
-    return p.returncode, p.stdout + p.stderr
+    p = subprocess.Popen(cmd, shell=True, cwd=cwd, env=ENV, stdout=subprocess.PIPE, stderr=subprocess.STDOUT, text=True, start_new_session=True)
+    try:
+        out, _ = p.communicate(timeout=timeout)
+    except BaseException:
+        try:
+            os.killpg(p.pid, signal.SIGKILL)
+        except ProcessLookupError:
+            pass
+        p.wait()
+        if isinstance(sys.exc_info()[1], subprocess.TimeoutExpired):
+            return 124, "TIMEOUT after %ds" % timeout
+        raise
+    return p.returncode, out
 
 def main():
     args = sys.argv[1:]
@@ -55,7 +68,7 @@ def main():
         try:
             for prop in props:
                 t0 = time.time()
-                rc, o = run(f"timeout 3300 /verif/bin/vcheck run --property {prop} --tier {tier}" + (f" --repo {repo}" if scratch else ""), cwd="/verif")
+                rc, o = run(f"/verif/bin/vcheck run --property {prop} --tier {tier}" + (f" --repo {repo}" if scratch else ""), cwd="/verif", timeout=1800 if tier == "quick" else 7200)
                 lines = [l for l in o.splitlines() if l.startswith(("VIOLATION", "  harness=", "OK ", "INCONCLUSIVE", "TOOL-ERROR", "KNOWN"))]
                 res[prop] = {"exit": rc, "detected": rc == 1 and any(l.startswith("VIOLATION") for l in lines),
                              "wall_s": round(time.time() - t0, 1), "first_lines": lines[:4]}
